@@ -5,7 +5,7 @@
    status 201 are accepted only after that write succeeded, and Location must be that id. *)
 From Coq Require Import String List Bool Arith.
 From Verif Require Import Base.ListX Base.Json Base.Free Pub.Events Pub.Calls Pub.Value Pub.Util Pub.SideEffect Pub.Soc Pub.BaseActor Pub.Monitors.
-From Verif Require Import Pub.Fed Pub.EffectSpec Proofs.EffectProofs Proofs.OrderProofs Proofs.NormalizeProofs Proofs.WrapProofs.
+From Verif Require Import Pub.Fed Pub.EffectSpec Proofs.EffectProofs Proofs.OrderProofs Proofs.NormalizeProofs Proofs.WrapProofs Proofs.ForwardIffProofs Proofs.SectionProofs Proofs.NewIdProofs.
 Import ListNotations.
 Open Scope string_scope.
 Open Scope list_scope.
@@ -33,7 +33,7 @@ Proof. intros tr s H. pose proof (ord_once tr o0 s H) as H1. simpl in H1. rewrit
 
 (* ... and every hand-over to the transport comes after a successful write of the outbox *)
 Theorem C05_deliver_after_store : forall tr s, run_monitor ord_step o0 tr = Some s ->
-  forall pre p post, tr = pre ++ p :: post -> is_batch p = true ->
+  forall pre p post, tr = pre ++ p :: post -> OrderProofs.is_batch p = true ->
   exists w, In w pre /\ is_set_outbox w = true /\ snd w = AOk.
 Proof. intros tr s H. apply (ord_deliver_after_write tr o0 s H). reflexivity. Qed.
 
@@ -148,6 +148,40 @@ Theorem C05_attribution_no_actor : forall perm, (forall l x, In x (perm l) <-> I
                     ids_of "attributedTo" t = Ok ids -> ids = []) -> jget "actor" a2 = None).
 Proof. exact attribution_no_actor. Qed.
 
+(* ---- fresh ids, for EVERY environment: the activity gets the id NewID answered for it; of a Create every embedded object
+   gets the id NewID answered for it (a client-chosen one is overwritten), in order, one call each, nothing else changes;
+   another activity only gets its own id.  The ids afterwards are the answers call by call: pairwise different answers that
+   avoid a set of old ids give pairwise different ids outside that set. ---- *)
+Theorem C05_fresh_ids : forall env a m a', a = JObj m -> res_env env (add_new_ids a) = Ok a' ->
+  exists id, env (newid a) = AIri id /\ jget "id" a' = Some (JStr id) /\
+    if is_or_extends (type_name a) "Create"
+    then vhas a "object" = true /\
+         Forall2 (gets_id env) (elems0 "object" a) (elems0 "object" a') /\
+         (forall q, q <> "id" -> q <> "object" -> jget q a' = jget q a) /\
+         evs_env env (add_new_ids a) = newid a :: map newid (elems0 "object" a)
+    else a' = jset "id" (JStr id) a /\ evs_env env (add_new_ids a) = [newid a].
+Proof. exact add_new_ids_spec. Qed.
+Theorem C05_ids_are_the_answers : forall env a m a', a = JObj m -> res_env env (add_new_ids a) = Ok a' ->
+  let calls := evs_env env (add_new_ids a) in
+  map (jget "id") (identified a a') = map ans_id (map env calls) /\
+  (NoDup (map env calls) -> NoDup (map (jget "id") (identified a a'))) /\
+  (forall olds, (forall c, In c calls -> ~ In (ans_id (env c)) olds) ->
+                forall v, In v (identified a a') -> ~ In (jget "id" v) olds).
+Proof. exact add_new_ids_fresh. Qed.
+(* the Social side of an outbox post, for every environment: what is stored by Create and whose id is put in front of the
+   outbox page is the value the callbacks returned, under the id it was given *)
+Theorem C05_post_outbox_stores : forall env cfg outbox raw perm a r,
+  res_env env (Soc.post_outbox cfg outbox raw perm a) = Ok r ->
+  let v := fst r in
+  res_env env (soc_callbacks cfg outbox raw perm a) = Ok r /\
+  jget "id" v = jget "id" a /\
+  exists page, env (EDb "GetOutbox" [JStr outbox]) = AJson page /\
+    evs_env env (Soc.post_outbox cfg outbox raw perm a) =
+      evs_env env (soc_callbacks cfg outbox raw perm a) ++
+      [ELock (id_str v); EDb "Create" [canon v]; EUnlock (id_str v);
+       ELock outbox; EDb "GetOutbox" [JStr outbox]; EDb "SetOutbox" [canon (prepend_iri "orderedItems" (id_str v) page)]; EUnlock outbox].
+Proof. exact post_outbox_stores. Qed.
+
 Print Assumptions C05_post_outbox.
 Print Assumptions C05_send.
 Print Assumptions C05_once.
@@ -160,3 +194,6 @@ Print Assumptions C05_wrap_fails_iff.
 Print Assumptions C05_create_decomposition.
 Print Assumptions C05_attribution.
 Print Assumptions C05_attribution_no_actor.
+Print Assumptions C05_fresh_ids.
+Print Assumptions C05_ids_are_the_answers.
+Print Assumptions C05_post_outbox_stores.
